@@ -346,7 +346,9 @@ mod if_alloc {
         // Safety: Channel futures can be sent between threads as long as the underlying
         // channel is thread-safe (Sync), which allows to poll/register/unregister from
         // a different thread.
-        unsafe impl<MutexType: Sync, T: Send> Send
+        // The future might be the last owner of the channel, which is destroyed on the
+        // receiving thread in this case. Therefore the mutex also needs to be Send.
+        unsafe impl<MutexType: Send + Sync, T: Send> Send
             for ChannelReceiveFuture<MutexType, T>
         {
         }
@@ -444,7 +446,12 @@ mod if_alloc {
         // Safety: Channel futures can be sent between threads as long as the underlying
         // channel is thread-safe (Sync), which allows to poll/register/unregister from
         // a different thread.
-        unsafe impl<MutexType: Sync, T: Send> Send for ChannelSendFuture<MutexType, T> {}
+        // The future might be the last owner of the channel, which is destroyed on the
+        // receiving thread in this case. Therefore the mutex also needs to be Send.
+        unsafe impl<MutexType: Send + Sync, T: Send> Send
+            for ChannelSendFuture<MutexType, T>
+        {
+        }
 
         impl<MutexType, T> core::fmt::Debug for ChannelSendFuture<MutexType, T> {
             fn fmt(&self, f: &mut core::fmt::Formatter) -> core::fmt::Result {
